@@ -138,6 +138,7 @@ func runC18(r *Run, seed int64, c c18Case) {
 	var nwg sync.WaitGroup
 	if c.noise {
 		nwg.Add(1)
+		nrng := mrand.New(mrand.NewSource(rng.Int63())) // the noise goroutine has its own source
 		go func() {
 			defer nwg.Done()
 			for i := 0; i < 6; i++ {
@@ -152,7 +153,7 @@ func runC18(r *Run, seed int64, c c18Case) {
 					inc.Svc.ListActiveSwaps()
 					inc.Svc.HasActiveSwaps()
 				}
-				time.Sleep(time.Duration(rng.Intn(3)) * time.Millisecond)
+				time.Sleep(time.Duration(nrng.Intn(3)) * time.Millisecond)
 			}
 		}()
 	}
@@ -501,7 +502,7 @@ func runC22(r *Run, seed int64, c c22Case) {
 		r.Inconclusive("setup: " + err.Error())
 		return
 	}
-	interval := 2 * time.Millisecond
+	interval := c22Interval
 	time.Sleep(6 * interval) // a few retransmissions while waiting
 	w.Run()
 	third, _ := btcec.NewPrivateKey()
@@ -528,14 +529,18 @@ func runC22(r *Run, seed int64, c c22Case) {
 	w.Run()
 	chain.Mine(1)
 	w.Run()
-	time.Sleep(25 * interval) // >= 20 retry intervals after the swap moved on
+	// >= 24 retry intervals after the swap moved on, with a marker in the log after the first half
+	time.Sleep(12 * interval)
+	w.Emit("alice", 0, "c22.late", sim.EvNote{Note: "12 retry intervals after the continuation"})
+	time.Sleep(12 * interval)
 	w.Run()
 	// ---- oracle ------------------------------------------------------------------------
 	waiting := map[string]bool{"State_SwapInSender_SendTxBroadcastedMessage": true, "State_SwapInSender_AwaitClaimPayment": true,
 		"State_SwapOutReceiver_SendTxBroadcastedMessage": true, "State_SwapOutReceiver_AwaitClaimInvoicePayment": true}
 	var movedOn int64
 	var first []byte
-	copiesAfter, copies := 0, 0
+	copiesAfter, copies, copiesLate := 0, 0, 0
+	var late int64
 	liveMax := 0
 	incOfMove := 0
 	for _, e := range w.Events() {
@@ -543,6 +548,8 @@ func runC22(r *Run, seed int64, c c22Case) {
 			continue
 		}
 		switch e.Kind {
+		case "c22.late":
+			late = e.Seq
 		case "store.write":
 			x := e.P.(sim.EvStore)
 			if movedOn == 0 && copies > 0 && !waiting[x.State] && x.State != "State_SwapInSender_BroadcastOpeningTx" && x.State != "State_SwapOutReceiver_BroadcastOpeningTx" {
@@ -562,6 +569,9 @@ func runC22(r *Run, seed int64, c c22Case) {
 			}
 			if movedOn != 0 && e.Seq > movedOn && e.Inc == incOfMove {
 				copiesAfter++
+				if late != 0 && e.Seq > late {
+					copiesLate++
+				}
 			}
 		case "sender.add", "sender.remove":
 			x := e.P.(sim.EvSender)
@@ -577,11 +587,16 @@ func runC22(r *Run, seed int64, c c22Case) {
 	r.Eval()
 	r.Count("announcement_copies_seen", copies)
 	r.Seen(fmt.Sprintf("%s/%s/%s/final=%s/copies-after-move=%d", c.chain, c.typ, c.cont, final, min(copiesAfter, 3)))
-	det := fmt.Sprintf("%d copies in total, %d after the swap moved on (state %s); case %+v seed %d", copies, copiesAfter, final, c, seed)
+	det := fmt.Sprintf("%d copies in total, %d after the swap moved on, %d of them more than 12 retry intervals later (state %s); case %+v seed %d", copies, copiesAfter, copiesLate, final, c, seed)
 	if liveMax > 1 {
 		r.Violate("one-retransmitter", "C22|more-than-one-retransmitter|"+c.cont, det, nil)
 	}
-	if movedOn != 0 && copiesAfter > 1 {
+	if copiesAfter > 1 {
+		// more than one copy right after the move: ticks that were already due while the stopped sender was
+		// still busy (its select may take a ready tick before it sees the stop); counted, judged below
+		r.CountIn("extra_due_copies_after_move", fmt.Sprintf("%s/%s=%d", c.typ, c.cont, copiesAfter))
+	}
+	if movedOn != 0 && copiesLate > 1 {
 		r.Violate("stops-when-moved-on", fmt.Sprintf("C22|retransmission-continues|%s|%s|final=%s", c.typ, c.cont, final), det, traceOf(w))
 	}
 	if c.cont == "restart" {
@@ -593,12 +608,15 @@ func runC22(r *Run, seed int64, c c22Case) {
 	}
 }
 
+// c22Interval is the retransmission interval in the C22 worlds (10 s in production).
+const c22Interval = 5 * time.Millisecond
+
 func TestC22(t *testing.T) {
-	swap.VerifSetRetryDur(2 * time.Millisecond)
+	swap.VerifSetRetryDur(c22Interval)
 	r := newRun(t, "C22", "exploration")
 	defer r.Finish()
-	r.Rule = "real makers (both roles, both chains) with the real RedundantMessenger goroutines (retry interval 2 ms through the verif hook) announce their opening tx to a scripted taker; after a few retransmissions the history continues with {payment, cancel, good coop_close, coop_close with a wrong key, invalid message, CSV maturity, restart} and runs for >= 20 more retry intervals. Oracle over the recorded log: copies byte-identical, never more than one live retransmitter per swap (AddSender/RemoveSender seen through a decorator of the real Manager), at most one copy after the first committed record in a non-waiting state (within that incarnation). distinct = (chain, role, continuation, final state, copies after move)"
-	r.Assumptions = []string{"wall-clock time only decides how many copies are observed, never the verdict rule"}
+	r.Rule = "real makers (both roles, both chains) with the real RedundantMessenger goroutines (retry interval 5 ms through the verif hook) announce their opening tx to a scripted taker; after a few retransmissions the history continues with {payment, cancel, good coop_close, coop_close with a wrong key, invalid message, CSV maturity, restart} and runs for >= 24 more retry intervals, with a marker written to the log after the first 12. Oracle over the recorded log: copies byte-identical, never more than one live retransmitter per swap (AddSender/RemoveSender seen through a decorator of the real Manager), and retransmission has stopped: at most one copy after the marker once the first committed record in a non-waiting state exists (within that incarnation). Copies between the move and the marker beyond the first are counted (extra_due_copies_after_move), not judged: with the interval shrunk from 10 s to 5 ms a stopped sender can find further ticks already due. distinct = (chain, role, continuation, final state, copies after move)"
+	r.Assumptions = []string{"wall-clock time only decides how many copies are observed; the verdict compares positions in the event log", "a stopped sender does not find ticks due for 12 consecutive intervals (it leaves its loop with probability 1/2 per due tick)"}
 	var cases []c22Case
 	for _, ch := range []string{"btc", "lbtc"} {
 		for _, ty := range []string{"in", "out"} {
